@@ -39,14 +39,21 @@ theorem specStep_keeps_leaving (a : ASt) (f : Nat → Bool) (op : Op) (k d e : N
   | getKey _ => exact hin
   | getKeys => exact hin
   | getKeysWithData => exact hin
-  | resetRoutine k' =>
-    simp only [specStep, renew, ASt.inSet, upd]
+  | resetRoutine k' cs =>
+    simp only [specStep]
     split
-    · rename_i hk; subst hk; simp [renSt, hin, KSt.inSet]
+    · simp only [renew, ASt.inSet, upd]
+      split
+      · rename_i hk; subst hk; simp [renSt, hin, KSt.inSet]
+      · exact hin
     · exact hin
-  | restartRoutine _ => exact hin
-  | resetAll => simp [specStep, ASt.inSet, renSt, h, KSt.inSet]
-  | restartAll => exact hin
+  | restartRoutine _ _ => exact hin
+  | resetAll cs =>
+    simp only [specStep, ASt.inSet]
+    split
+    · simp [renSt, hin, KSt.inSet]
+    · exact hin
+  | restartAll _ => exact hin
   | setContext c r => exact hin
   | addKeyRef k' =>
     simp only [specStep, request, ASt.inSet, upd]
@@ -123,21 +130,31 @@ theorem rcOk_specStep (a : ASt) (f : Nat → Bool) (op : Op) (h : RcOk a) (hop :
   | getKey _ => exact h
   | getKeys => exact h
   | getKeysWithData => exact h
-  | restartRoutine _ => exact h
-  | restartAll => exact h
+  | restartRoutine _ _ => exact h
+  | restartAll _ => exact h
   | setContext c r => exact h
-  | resetRoutine k' =>
+  | resetRoutine k' cs =>
     intro k hk
-    obtain ⟨d, hd⟩ := h k hk
-    simp only [specStep, renew, upd]
+    have hk' : 0 < liveCount a k := by
+      have e : liveCount (specStep a f (.resetRoutine k' cs)) k = liveCount a k := by
+        simp only [specStep]; split <;> rfl
+      rw [e] at hk; exact hk
+    obtain ⟨d, hd⟩ := h k hk'
+    simp only [specStep]
     split
-    · rename_i hkk; subst hkk
-      exact ⟨a.nctor k + 1, by simp [renSt, inSet_of_present a k d hd]⟩
+    · simp only [renew, upd]
+      split
+      · rename_i hkk; subst hkk
+        exact ⟨a.nctor k + 1, by simp [renSt, inSet_of_present a k d hd]⟩
+      · exact ⟨d, hd⟩
     · exact ⟨d, hd⟩
-  | resetAll =>
+  | resetAll cs =>
     intro k hk
     obtain ⟨d, hd⟩ := h k hk
-    exact ⟨a.nctor k + 1, by simp [specStep, renSt, inSet_of_present a k d hd]⟩
+    simp only [specStep]
+    split
+    · exact ⟨a.nctor k + 1, by simp [renSt, inSet_of_present a k d hd]⟩
+    · exact ⟨d, hd⟩
   | addKeyRef k' =>
     intro k hk
     simp only [specStep, request, upd]
